@@ -11,6 +11,7 @@ pub mod exc;
 pub mod charge;
 pub mod tables;
 pub mod ports;
+pub mod timer;
 
 use crate::hv::e1::Case;
 use crate::hv::known::Known;
@@ -28,6 +29,7 @@ pub fn build(id: &str, tier: Tier, seed: u64, known: &[Known]) -> Option<Prop> {
         "C03" => alu::c03(tier, seed),
         "C09" => tables::c09(tier, seed),
         "C16" => ports::c16(tier, seed),
+        "C17" => timer::c17(tier, seed),
         "C19" => tables::c19(tier, seed),
         "C20" => charge::c20(tier, seed),
         _ => return None,
@@ -63,6 +65,7 @@ pub fn replay_other(prop: &str, doc: &serde_json::Value, path: &std::path::PathB
         Some("c19") => tables::replay_c19(&mut ctx, &v["case"]),
         Some("c09") => tables::replay_c09(&mut ctx, &v["case"]),
         Some("c16") => ports::replay_c16(&v["case"]),
+        Some("c17") => timer::replay_c17(&v["case"]),
         other => {
             println!("no replay handler for engine {:?} (property {})", other, prop);
             return 2;
